@@ -287,14 +287,14 @@ def r7(run):
     for name, edge in sorted(arms.items()):
         reach = worker.reachable_blocks([edge[1]], removed_blocks=[recv.bb])
         if name == "Remove":
-            rm = [c for c in q.live_calls(worker, C.REMOVE) if c.bb in reach and any(y[0] == "downcast" and y[2] == "Remove" for y in walk(c.arg(1)))]
+            rm = [c for c in q.live_calls(worker, *C.removers(run.facts)) if c.bb in reach and any(y[0] == "downcast" and y[2] == "Remove" for y in walk(c.arg(1)))]
             run.ob("%s|Remove|removes-that-id" % GC_WORKER, len(rm) >= 1 and all(q.dominated(worker, c.bb, via_edges=[edge]) for c in rm), worker.blocks[edge[0]]["term"]["sp"],
                    "a Remove request leads to Store::remove of the id it carries", reason="gc-requests-unserved")
         elif name == "Drain":
             sg = [c for c in q.live_calls(worker, C.ONESHOT_SEND) if c.bb in reach]
             run.ob("%s|Drain|signals" % GC_WORKER, len(sg) >= 1, worker.blocks[edge[0]]["term"]["sp"], "a Drain request is answered on its oneshot channel", reason="gc-requests-unserved")
         elif name == "CheckHeadTTL":
-            rm = [c for c in q.live_calls(worker, C.REMOVE) if c.bb in reach]
+            rm = [c for c in q.live_calls(worker, *C.removers(run.facts)) if c.bb in reach]
             run.ob("%s|CheckHeadTTL|evicts" % GC_WORKER, len(rm) >= 1, worker.blocks[edge[0]]["term"]["sp"], "a CheckHeadTTL request reaches Store::remove (eviction)", reason="gc-requests-unserved")
         run.ob("%s|%s|loops" % (GC_WORKER, name), q.reaches(worker, edge[1], recv.bb) or edge[1] == recv.bb, worker.blocks[edge[0]]["term"]["sp"],
                "after serving a %s request the worker waits for the next one" % name, reason="gc-worker-stops")
